@@ -238,7 +238,7 @@ Ret(t) ==
                           !.pubval = IF o.op = "clr" THEN << >> ELSE @,
                           !.lo = IF o.op = "clr" THEN 0 ELSE @,
                           !.closedAt = IF o.op = "clr" THEN -1 ELSE @]
-        /\ ev' = [NoEv EXCEPT !.t = t, !.k = "ret", !.op = o.op, !.n = o.n, !.res = l.res, !.i = b, !.vals = vals]
+        /\ ev' = [NoEv EXCEPT !.t = t, !.k = "ret", !.op = o.op, !.n = o.n, !.res = IF o.op \in {"p", "q"} THEN o.n ELSE l.res, !.i = b, !.vals = vals]
   /\ Goto(t, "idle")
   /\ SetL(t, [L[t] EXCEPT !.opi = @ + 1])
   /\ UNCHANGED cfg
@@ -320,7 +320,7 @@ PFSc(t, M(_)) ==
 AfterWakePc(l) == IF l.j + 1 < l.segEnd THEN "w_load" ELSE IF l.segEnd < l.idx + l.num THEN "p_cb" ELSE "ret"
 AfterWakeL(l) == IF l.j + 1 < l.segEnd THEN [l EXCEPT !.j = @ + 1]
                  ELSE IF l.segEnd < l.idx + l.num THEN StartSeg(l, l.segEnd)
-                 ELSE [l EXCEPT !.res = l.num]
+                 ELSE l
 
 WLoad(t, M(_)) ==
   /\ pc[t] = "w_load"
@@ -513,8 +513,10 @@ PublishersNeverShareSlot == H.bad # "PublishersNeverShareSlot"
 ClearActsAsNew == H.bad # "ClearActsAsNew"
 \* safety form of "no lost wake-up": when nobody can move any more, no consumer sleeps on a slot whose
 \* status already left INITIAL
+\* (SafeOp: TLC explores both sides of a disjunction inside an action, so no partial expressions here)
+SafeOp(t) == IF HasOp(t) THEN Op(t) ELSE [op |-> "", n |-> 0]
 Waiting(t) == \/ pc[t] = "c_blocked"
-              \/ pc[t] = "idle" /\ (~HasOp(t) \/ t \notin H.started \/ (Op(t).op = "j" /\ ~Done(Op(t).n)))
+              \/ pc[t] = "idle" /\ (~HasOp(t) \/ t \notin H.started \/ (SafeOp(t).op = "j" /\ ~Done(SafeOp(t).n)))
 Stuck == \A t \in Thr : Waiting(t)
 NoLostWakeup == Stuck => \A t \in Thr : pc[t] = "c_blocked" => Status(LastVal(ms, SlotLoc(L[t].i))) = INITIAL
 \* programs that close after their last publish never end with a sleeping consumer
